@@ -76,3 +76,17 @@ func repoRoot() string {
 	}
 	return "/repo"
 }
+
+// LoadBitcode parses an LLVM bitcode file (e.g. the host C compiler's output)
+// into plain data.
+func LoadBitcode(path, name string) (*Module, error) {
+	optOnce.Do(func() {
+		llvm.ParseCommandLineOptions([]string{"symx", "-opaque-pointers"}, "")
+	})
+	ctx := llvm.NewContext()
+	m, err := ctx.ParseBitcodeFile(path)
+	if err != nil {
+		return nil, err
+	}
+	return Convert(m, name, false), nil
+}
